@@ -4,7 +4,7 @@ From PV Require Import Session.Model.
 Import ListNotations.
 
 Definition sqln (s : sql) : nat :=
-  match s with Begin => 0 | Commit => 1 | Rollback => 2 | Select => 3 | SetG => 4 | Prepare => 5 | Fail => 6 | CopyIn => 7 end.
+  match s with Begin => 0 | Commit => 1 | Rollback => 2 | Select => 3 | SetG => 4 | Prepare => 5 | Fail => 6 | CopyIn => 7 | DeallocAll => 8 end.
 Definition b2n (b : bool) : nat := if b then 1 else 0.
 Definition txn_n (t : tx) : nat := match t with TI => 0 | TT => 1 | TE => 2 end.
 
